@@ -129,6 +129,43 @@ func caseConds(p *pkg, key, label string) ([]string, bool) {
 	return out, found
 }
 
+// trCaseFatalConds: the top-level `if` statements of the case clause `label` whose body ENDS the
+// connection: the last statement of the body is `return c.in.setErrorLocked(c.sendAlert(<alert>))`.
+// Each is reported as "<condition> => <alert>"; a guard that is still there but whose body drops the
+// record, retries or continues is not in the list.
+func trCaseFatalConds(p *pkg, key, label string) []string {
+	fd := p.funcs[key]
+	if fd == nil || fd.Body == nil {
+		return nil
+	}
+	var out []string
+	found := false
+	ast.Inspect(fd.Body, func(n ast.Node) bool {
+		cc, ok := n.(*ast.CaseClause)
+		if !ok || len(cc.List) != 1 || p.src(cc.List[0]) != label || found {
+			return true
+		}
+		found = true
+		for _, st := range cc.Body {
+			is, ok := st.(*ast.IfStmt)
+			if !ok || is.Body == nil || len(is.Body.List) == 0 {
+				continue
+			}
+			ret, ok := is.Body.List[len(is.Body.List)-1].(*ast.ReturnStmt)
+			if !ok || len(ret.Results) != 1 {
+				continue
+			}
+			txt := strings.Join(strings.Fields(p.src(ret.Results[0])), "")
+			const pre, suf = "c.in.setErrorLocked(c.sendAlert(", "))"
+			if strings.HasPrefix(txt, pre) && strings.HasSuffix(txt, suf) {
+				out = append(out, p.src(is.Cond)+" => "+txt[len(pre):len(txt)-len(suf)])
+			}
+		}
+		return false
+	})
+	return out
+}
+
 // condContaining: the first `if` condition of the function whose text contains sub.
 func condContaining(p *pkg, key, sub string) (string, bool) {
 	fd := p.funcs[key]
@@ -616,6 +653,8 @@ func emitTranscript(e *emitter, p *pkg) {
 			e.missing = append(e.missing, e.key(c.fact))
 		}
 		e.strList(c.fact, conds)
+		// which of these guards answer with a fatal alert (and which alert)
+		e.strList(strings.Replace(c.fact, "Guards", "FatalGuards", 1), trCaseFatalConds(p, "Conn.readRecordOrCCS", c.label))
 	}
 	v, ok := condContaining(p, "Conn.readRecordOrCCS", "vers != c.vers")
 	if !ok {
